@@ -44,7 +44,7 @@ class UnitResult:
     """What one work unit reports back to the parent."""
 
     __slots__ = ("evals", "keys", "viol", "samples", "stats", "states",
-                 "transitions", "outcomes")
+                 "transitions", "outcomes", "payload", "payloads")
 
     def __init__(self):
         self.evals = 0
@@ -55,6 +55,8 @@ class UnitResult:
         self.states = 0
         self.transitions = 0
         self.outcomes = set()  # distinct observed outcomes
+        self.payload = None  # lossless per-unit data for finish()
+        self.payloads = []
 
     def key(self, obj):
         self.keys.add(hash(obj) if isinstance(obj, (str, bytes)) else
@@ -218,6 +220,8 @@ def run_check(modname, tier, seed, replay_path=None):
         merged.states += res.states
         merged.transitions += res.transitions
         merged.viol.extend(res.viol)
+        if res.payload is not None:
+            merged.payloads.append(res.payload)
         for s in res.samples:
             merged.sample(s, cap=4)
         for k, v in res.stats.items():
